@@ -176,3 +176,124 @@ theorem lintGroup_append_perm (pieces : List Tok → List (List Tok)) (rs : List
     exact List.Perm.append_right _ List.perm_append_comm
 
 end Harper.Chunks
+
+namespace Harper.Chunks
+open Harper
+
+/-! ## the pieces of `split`: non-empty, counted, closed by their terminators -/
+
+/-- no piece of `splitGo` is empty -/
+theorem splitGo_ne (term : Kind → Bool) (toks cur : List Tok) : ∀ c ∈ splitGo term cur toks, c ≠ [] := by
+  induction toks generalizing cur with
+  | nil =>
+    intro c hc
+    simp only [splitGo] at hc
+    split at hc
+    · cases hc
+    · rename_i h
+      simp only [List.mem_singleton] at hc
+      subst hc
+      intro e
+      apply h
+      simpa using e
+  | cons t ts ih =>
+    intro c hc
+    simp only [splitGo] at hc
+    split at hc
+    · rcases List.mem_cons.mp hc with rfl | hc
+      · simp
+      · exact ih [] c hc
+    · exact ih _ c hc
+
+/-- is the last token a terminator? (`none`: no token) -/
+def endsInTerm (term : Kind → Bool) (toks : List Tok) : Bool :=
+  match toks.getLast? with
+  | some t => term t.kind
+  | none => false
+
+/-- as many pieces as terminators, and one more for what follows the last terminator -/
+theorem splitGo_length (term : Kind → Bool) (toks cur : List Tok) :
+    (splitGo term cur toks).length =
+      toks.countP (fun t => term t.kind) +
+        (if (match toks.getLast? with
+             | some t => term t.kind
+             | none => cur.isEmpty) then 0 else 1) := by
+  induction toks generalizing cur with
+  | nil =>
+    simp only [splitGo, List.getLast?_nil, List.countP_nil]
+    cases cur <;> simp
+  | cons t ts ih =>
+    simp only [splitGo]
+    by_cases ht : term t.kind = true
+    · rw [if_pos ht, List.length_cons, ih [], List.countP_cons_of_pos (by simpa using ht)]
+      cases ts with
+      | nil => simp [ht]
+      | cons u us =>
+        rw [List.getLast?_cons_cons]
+        cases hl : (u :: us).getLast? with
+        | none => simp at hl
+        | some l => simp only []; omega
+    · rw [if_neg ht, ih (t :: cur), List.countP_cons_of_neg (by simpa using ht)]
+      cases ts with
+      | nil => simp [ht]
+      | cons u us =>
+        rw [List.getLast?_cons_cons]
+        cases hl : (u :: us).getLast? with
+        | none => simp at hl
+        | some l => rfl
+
+/-- a terminator can only be the last token of a piece (the collected `cur` has none) -/
+theorem splitGo_inner (term : Kind → Bool) (toks cur : List Tok) (hcur : cur.any (fun t => term t.kind) = false) :
+    ∀ c ∈ splitGo term cur toks, c.dropLast.any (fun t => term t.kind) = false := by
+  induction toks generalizing cur with
+  | nil =>
+    intro c hc
+    simp only [splitGo] at hc
+    split at hc
+    · cases hc
+    · simp only [List.mem_singleton] at hc
+      subst hc
+      simp only [List.any_eq_false] at hcur ⊢
+      intro x hx
+      exact hcur x (by simpa using List.dropLast_subset _ hx)
+  | cons t ts ih =>
+    intro c hc
+    simp only [splitGo] at hc
+    split at hc
+    · rcases List.mem_cons.mp hc with rfl | hc
+      · rw [List.dropLast_concat]
+        simpa using hcur
+      · exact ih [] (by simp) c hc
+    · rename_i ht
+      refine ih (t :: cur) ?_ c hc
+      simp only [List.any_cons, hcur, Bool.or_false]
+      simpa using ht
+
+/-- every piece but the last ends in a terminator -/
+theorem splitGo_ends (term : Kind → Bool) (toks cur : List Tok) :
+    ∀ pre c post, splitGo term cur toks = pre ++ c :: post → post ≠ [] →
+      ∃ t, c.getLast? = some t ∧ term t.kind = true := by
+  induction toks generalizing cur with
+  | nil =>
+    intro pre c post h hpost
+    simp only [splitGo] at h
+    split at h
+    · cases pre <;> cases h
+    · cases pre with
+      | nil => simp at h; exact absurd h.2 hpost
+      | cons p pre => simp at h
+  | cons t ts ih =>
+    intro pre c post h hpost
+    simp only [splitGo] at h
+    split at h
+    · rename_i ht
+      cases pre with
+      | nil =>
+        simp only [List.nil_append, List.cons.injEq] at h
+        exact ⟨t, by rw [← h.1]; simp, ht⟩
+      | cons p pre =>
+        simp only [List.cons_append, List.cons.injEq] at h
+        exact ih [] pre c post h.2 hpost
+    · exact ih _ pre c post h hpost
+
+end Harper.Chunks
